@@ -34,22 +34,10 @@ type c14Scratch struct {
 var c14Bufs sync.Map // per worker context: the reused buffers
 
 func c14Verify(c *h.Ctx, cat_ string, pk, msg, sig []byte) {
-	var impl bool
-	pan, pmsg := h.Protect(func() { impl = ed25519.Verify(pk, msg, sig) })
 	std := stded.Verify(pk, msg, sig)
 	det := map[string]any{"category": cat_, "public_key": h.Hex(pk), "message": h.Hex(msg), "signature": h.Hex(sig)}
-	c.Count(cat_, 1, h.Hex(pk)+h.Hex(sig)+h.Hex(msg))
-	if pan {
-		det["panic"] = pmsg
-		c.Violation("Verify panics", det)
-		return
-	}
-	if impl != std {
-		det["fork"], det["crypto/ed25519"] = impl, std
-		c.Violation("verification returns the standard library's verdict for every public key, message and byte string offered as a signature", det)
-	}
-	// the same call with key, message and signature handed over in buffers that are REUSED in place from call to call
-	// (a verifier that remembers something about an earlier call by reference sees its own memory change)
+	// first with key and signature handed over in buffers that are REUSED in place from call to call (a verifier that
+	// remembers something about an earlier call by reference sees its own memory change under it)
 	if len(pk) == 32 && len(sig) == 64 {
 		bv, _ := c14Bufs.LoadOrStore(c, &c14Scratch{})
 		sc := bv.(*c14Scratch)
@@ -61,6 +49,18 @@ func c14Verify(c *h.Ctx, cat_ string, pk, msg, sig []byte) {
 			det["fork_with_reused_buffers"], det["crypto/ed25519"] = impl2, std
 			c.Violation("the verdict does not depend on earlier calls (key and signature passed in buffers reused in place)", det)
 		}
+	}
+	var impl bool
+	pan, pmsg := h.Protect(func() { impl = ed25519.Verify(pk, msg, sig) })
+	c.Count(cat_, 1, h.Hex(pk)+h.Hex(sig)+h.Hex(msg))
+	if pan {
+		det["panic"] = pmsg
+		c.Violation("Verify panics", det)
+		return
+	}
+	if impl != std {
+		det["fork"], det["crypto/ed25519"] = impl, std
+		c.Violation("verification returns the standard library's verdict for every public key, message and byte string offered as a signature", det)
 	}
 	// the verdict recomputed from the model's checks and the reference group law
 	want := false
